@@ -18,7 +18,7 @@ META = {
     "property_id": "C18",
     "category": "translation_validation",
     "design_ref": "DESIGN.md §4 C18",
-    "technique": "per-execution translation validation of torch.compile'd optimizer steps against the Coq model of the step (theorems of C01) and against eager runs",
+    "technique": "Coq theorems about the way the optimizer drives torch.compile (Compiled.v: flags outside + kernel, soundness of a specialisation cache for the optimizer's key/data split, over every call history) + per-execution translation validation of torch.compile'd optimizer steps against the Coq model of the step (theorems of C01) and against eager runs; the call interface of the compiled function is tied to the model by coqc",
     "level_text": "For every compiled program (configuration x shape mode x backend) each step's observed pre-state -> post-state transition is checked by coqc against the Gallina model of the step whose theorems are C01's (reference semantics), and the compiled run is compared bit-for-bit with the eager run.  This validates executions, not the compiler: 'compiled == eager for all programs' is not provable without a model of Dynamo.",
     "level_note": "Trusted: Coq kernel + vm_compute, the C01 model (tied to the eager implementation by C01), torch's own eager execution as comparison partner.  Backends eager and aot_eager on CPU only; inductor is outside the property's wording. A run in which Dynamo compiled nothing (silent fallback) is counted as not validated and fails the check.",
     "ready": True,
@@ -89,8 +89,26 @@ def worker(args):
     counters.clear()
     comp = copy.deepcopy(case)
     comp["pt2"] = {"backend": mode[0], "dynamic": mode[1]}
+    iface, cur = [], {"si": 0}
     try:
-        recs_c, opt_c, params_c = optrun.run_case(comp)
+        params_c = optrun.build_params(comp)
+        opt_c = optrun.build_optimizer(comp, params_c)
+        inner = opt_c._per_group_step          # the torch.compile'd callable
+
+        def recording_per_group_step(state_lists, step, lr, *rest):
+            # the call interface of the compiled function: what is a tensor (data of the graph) and what is a Python scalar (guarded)
+            gi = next((k for k, sl in enumerate(opt_c._per_group_state_lists) if sl is state_lists), -1)
+            tensors_ok = (isinstance(step, torch.Tensor) and step.dim() == 0 and isinstance(lr, torch.Tensor) and lr.dim() == 0
+                          and lr.dtype == torch.float32 and len(rest) == 11
+                          and all(type(x) in (float, int) for x in rest[:5]) and all(type(x) is bool for x in rest[5:]))
+            iface.append({"si": cur["si"], "g": gi, "tensors_ok": bool(tensors_ok), "t": int(step.item()) if isinstance(step, torch.Tensor) else -1,
+                          "lr": float(lr) if isinstance(lr, torch.Tensor) else float("nan"),
+                          "floats": [float(x) for x in rest[:5]], "bools": [bool(x) for x in rest[5:]]})
+            return inner(state_lists, step, lr, *rest)
+
+        opt_c._per_group_step = recording_per_group_step
+        recs_c, opt_c, params_c = optrun.run_case(comp, opt=opt_c, params=params_c,
+                                                  on_step=lambda si, o, p: cur.__setitem__("si", si + 1))
     except Exception as e:  # noqa
         return {"error": f"compiled run failed: {type(e).__name__}: {e}"[:400]}
     graphs = int(counters["stats"].get("unique_graphs", 0))
@@ -113,13 +131,29 @@ def worker(args):
                 first_diff = (si, gi)
             biteq = biteq and same
             rows.append({"step": si, "group": gi, "term": optrun.cstep(a), "error": a["error"], "ncalls": len(a["calls"])})
+    iface_terms = []
+    for rec in iface:
+        if rec["g"] < 0 or rec["si"] >= len(recs_c) or len(rec["floats"]) != 5 or len(rec["bools"]) != 6:
+            iface_terms.append("[false]")
+            continue
+        cfg = recs_c[rec["si"]][rec["g"]]["cfg"]
+        cb = common.coq_bool
+        iface_terms.append(f"iface_ok {optrun.ccfg(cfg)} {optrun.cZ(rec['t'])} {cb(rec['tensors_ok'])} {optrun.fl(rec['lr'])} "
+                           + " ".join(optrun.fl(x) for x in rec["floats"]) + " " + " ".join(cb(x) for x in rec["bools"]))
+    expected_calls = sum(1 for row in recs_e for r in row if any(g is not None for g in r["grads"]))
     return {"rows": rows, "graphs": graphs, "biteq": biteq, "first_diff": first_diff, "max_blocks": max_blocks,
-            "step_errors": step_errors[:2]}
+            "step_errors": step_errors[:2], "iface_terms": iface_terms, "iface": iface[:3], "expected_calls": expected_calls}
 
 
 def run(ck: Check) -> None:
     ck.level = "translation_validation"
-    ck.coq_props(props_file="C01.v", extra_targets=["exec/RunOpt.vo"])
+    ck.coq_props(props_file="C01.v", extra_targets=["exec/RunOpt.vo"])      # the reference semantics of one step
+    ref = {k: ck.coverage.get(k) for k in ("obligations", "discharged", "theorems", "axioms_reported_by_Print_Assumptions")}
+    ck.coq_props(props_file="C18.v")                                          # the compiled-call structure (Compiled.v)
+    ck.coverage["obligations"] += ref["obligations"]
+    ck.coverage["discharged"] += ref["discharged"]
+    ck.coverage["theorems"] = ref["theorems"] + ck.coverage["theorems"]
+    ck.coverage["axioms_reported_by_Print_Assumptions"] = sorted(set(ref["axioms_reported_by_Print_Assumptions"]) | set(ck.coverage["axioms_reported_by_Print_Assumptions"]))
     common.assert_repo_imports()
     thorough = ck.tier == "thorough"
     n = 300 if thorough else 36
@@ -148,6 +182,29 @@ def run(ck: Check) -> None:
     verdicts = [v for k in files for v in out[k]]
     assert len(verdicts) == len(index)
 
+    # ---- the call interface of the compiled function (Compiled.v's key / data split), decided by coqc ----
+    if_files, if_index, cur = {}, [], []
+    for ji, res in enumerate(results):
+        if "error" in res:
+            continue
+        for k, term in enumerate(res["iface_terms"]):
+            cur.append(term)
+            if_index.append((ji, k))
+            if len(cur) >= 400:
+                if_files[f"c18_if_{len(if_files):04d}"] = cur
+                cur = []
+    if cur:
+        if_files[f"c18_if_{len(if_files):04d}"] = cur
+    if_out = ck.eval_coq({k: optrun.coq_file(v) for k, v in if_files.items()}, timeout=600) if if_files else {}
+    if_verdicts = [v for k in if_files for v in if_out[k]]
+    assert len(if_verdicts) == len(if_index)
+    if_bad = {}
+    for (ji, k), v in zip(if_index, if_verdicts):
+        if "F" in v and ji not in if_bad:
+            if_bad[ji] = (k, v)
+    IF_NAMES = ["step and lr are 0-d tensors, the other arguments Python scalars", "lr tensor = float32(group lr)", "float constants = the group's",
+                "bool constants = the group's", "perform_amortized_computation = model flag", "use_grafting_method = model flag"]
+
     programs = validated_steps = disagreements = 0
     modes_hist = {}
     for ji, res in enumerate(results):
@@ -169,6 +226,19 @@ def run(ck: Check) -> None:
         if res["graphs"] == 0:
             ck.report(None, f"Dynamo compiled no graph for {key}: the run fell back to eager and validates nothing",
                       {"kind": "no-graph", "case": case, "mode": list(mode)}, no_failing_input=True)
+        if ji in if_bad:
+            k, v = if_bad[ji]
+            comps = [IF_NAMES[i] for i, ch in enumerate(v) if ch == "F" and i < len(IF_NAMES)] or ["malformed call"]
+            ck.report(None, f"call {k} of the compiled per-group step ({key}) does not have the interface of the model (Compiled.group_step_via): {comps}",
+                      {"kind": "compiled-call-interface", "case": case, "mode": list(mode), "call": k, "components": comps, "first_calls": res["iface"],
+                       "broken": "correspondence between Compiled.group_step_via / ci_key and the call interface of DistributedShampoo._per_group_step",
+                       "theorems_not_transferring": ["C18_compiled_group_step_eq_group_step", "C18_specialised_graph_sound"]},
+                      no_failing_input=res["biteq"] and not res["step_errors"])
+        if len(res["iface_terms"]) != res["expected_calls"]:
+            ck.report(None, f"the per-group step was called {len(res['iface_terms'])} times ({key}) but {res['expected_calls']} (step, group) pairs had a gradient",
+                      {"kind": "compiled-call-count", "case": case, "mode": list(mode), "calls": len(res["iface_terms"]), "expected": res["expected_calls"],
+                       "broken": "correspondence between Compiled.group_step_via (one kernel call per group with a gradient) and DistributedShampoo.step"},
+                      no_failing_input=res["biteq"] and not res["step_errors"])
         if not res["biteq"]:
             disagreements += 1
             si, gi = res["first_diff"]
@@ -191,7 +261,8 @@ def run(ck: Check) -> None:
         "evaluations": validated_steps, "distinct_nontrivial": programs,
         "rule": "program = one optimizer configuration compiled with one (backend, dynamic) mode and run for 7 steps crossing warm-up/preconditioned, refresh/non-refresh, an lr edit and two gradient-presence changes; every step validated against the Coq step model by coqc and the whole run compared bit-for-bit with eager; non-trivial = Dynamo reported at least one compiled graph",
         "distribution": {"modes": modes_hist, "graphs_per_program": sorted({r.get("graphs", 0) for r in results if "error" not in r})},
-        "explanation": "translation validation of executions; the compiler is not modelled",
+        "explanation": "translation validation of executions; the compiler is not modelled (Compiled.v proves what a sound specialisation cache with the observed key/data split guarantees)",
+        "call_interface_checked": len(if_index),
         "quantifier_audit": {
             "backend eager / aot_eager": [sum(1 for j in jobs if j[1][0] == "eager"), sum(1 for j in jobs if j[1][0] == "aot_eager")],
             "shape mode static / dynamic / automatic": [sum(1 for j in jobs if j[1][1] is False), sum(1 for j in jobs if j[1][1] is True), sum(1 for j in jobs if j[1][1] is None)],
